@@ -1297,27 +1297,29 @@ class Solve(Op):
     weight = 3.0
 
     def gen(self, rng, S):
+        # a cell basis is enough: the system is taken from the pool when a
+        # suitable assembled matrix exists, otherwise assembled here
+        b = S.pick(rng, "basis", lambda x: x["kind"] == "cell"
+                   and not x.get("composite")
+                   and x["ekind"] in ("scalar", "vector", "hdiv", "hcurl"))
+        if b is None:
+            return None
         A = S.pick(rng, "asm", lambda x: x["typ"] == "bilinear"
-                   and x["entry"] != "elemental" and x["basis"] == x["vbasis"])
-        if A is None:
-            return None
-        b = S.slots[A]["basis"]
-        bm = S.slots[b]
-        if bm["kind"] != "cell":
-            return None
+                   and x["entry"] != "elemental" and x["basis"] == b
+                   and x["vbasis"] == b)
         eig = rng.random() < 0.3
-        a = {"A": ref(A), "basis": ref(b), "eig": eig,
-             "shift": rng.choice([1.0, 2.5])}
+        a = {"basis": ref(b), "eig": eig, "shift": rng.choice([1.0, 2.5])}
+        if A is not None and rng.random() < 0.7:
+            a["A"] = ref(A)
         if eig:
             M = S.pick(rng, "asm", lambda x: x["typ"] == "bilinear"
                        and x["entry"] != "elemental" and x["basis"] == b
                        and x["vbasis"] == b)
-            if M is None:
-                return None
-            a["M"] = ref(M)
+            if M is not None and "A" in a:
+                a["M"] = ref(M)
             s = S.pick(rng, "solver", lambda x: x["kind"] in ("eigen",
                                                               "eigen_sym"))
-            if s is not None and rng.random() < 0.8:
+            if s is not None and rng.random() < 0.85:
                 a["solver"] = ref(s)
             a["kw"] = {"k": rng.choice([1, 2, 4])} if rng.random() < 0.5 else {}
         else:
@@ -1326,30 +1328,30 @@ class Solve(Op):
             if rhs is None or rng.random() < 0.3:
                 rhs = S.pick(rng, "vec", lambda x: x["basis"] == b
                              and not x["wrong"]) or rhs
-            if rhs is None:
-                return None
-            a["b"] = ref(rhs)
+            if rhs is not None:
+                a["b"] = ref(rhs)
             s = S.pick(rng, "solver", lambda x: x["kind"] in (
                 "direct", "pcg", "krylov-gmres", "cg-py"))
-            if s is not None and rng.random() < 0.8:
+            a["kw"] = {}
+            if s is not None and rng.random() < 0.85:
                 a["solver"] = ref(s)
                 sk = S.slots[s]["kind"]
-                a["kw"] = {}
                 if sk in ("pcg", "krylov-gmres") and rng.random() < 0.5:
                     a["kw"] = {"maxiter": rng.choice([3, 50])}
                 if sk == "cg-py" and rng.random() < 0.5:
                     a["kw"] = {"maxiters": rng.choice([3, 50])}
                 if sk == "direct" and rng.random() < 0.3:
                     a["kw"] = {"use_umfpack": False}
-            else:
-                a["kw"] = {}
             a["bc"] = rng.choice(["condense", "enforce", "shifted"])
         return a
 
     def apply(self, W, a):
-        from skfem import solve, condense, enforce
-        A = W[a["A"]["ref"]]
+        from skfem import solve, condense, enforce, BilinearForm
         basis = W[a["basis"]["ref"]]
+        if "A" in a:
+            A = W[a["A"]["ref"]]
+        else:
+            A = BilinearForm(R.g_stiff).assemble(basis)
         kw = dict(a.get("kw", {}))
         if "solver" in a:
             kw["solver"] = W[a["solver"]["ref"]]
@@ -1359,7 +1361,7 @@ class Solve(Op):
             # A well-separated spectrum (about 1, 2, 3, ...) built around the
             # pool matrices: ARPACK's random restarts then cannot change the
             # answer beyond rounding, and v0 is fixed.
-            M = W[a["M"]["ref"]]
+            M = W[a["M"]["ref"]] if "M" in a else A
             n = A.shape[0]
             As = ((A + A.T.conj()) * 0.5).real
             Ms = ((M + M.T.conj()) * 0.5).real
@@ -1370,7 +1372,7 @@ class Solve(Op):
             kw["v0"] = np.ones(n)
             L, X = solve(K.tocsr(), Mm.tocsr(), **kw)
             return EigResult(L, X)
-        b = W[a["b"]["ref"]]
+        b = W[a["b"]["ref"]] if "b" in a else np.ones(A.shape[0])
         K = ((A + A.T.conj()) * 0.5 + a["shift"] * sp.eye(A.shape[0])).tocsr()
         if np.iscomplexobj(K.data) and not np.iscomplexobj(b):
             b = b.astype(K.dtype)
